@@ -40,8 +40,9 @@ META = {
             "unchanged. The min/max table, the rejection test and the unsigned clamp are re-extracted from TypeManager::check_type_range / "
             "clamp_unsigned_value on every run; range_table_is_documented and range_check_is_closed_interval are stated about the generated "
             "definitions, so an edited bound or comparison breaks the obligation itself. A model of each C++ store path (Mech) is proved equal "
-            "to the demanded conversion on declaration, assignment, compound assignment, argument passing, global scalars and signed 1-D "
-            "elements, and proved NOT to be on eleven other paths (_refuted theorems = recorded findings). main, the extracted reference "
+            "to the demanded conversion on declaration, assignment, compound assignment, ++/--, argument passing, function results, global "
+            "scalars, multi-dimensional stores, nested literals and signed 1-D elements, and proved NOT to be on eight other paths "
+            "(_refuted theorems = recorded findings). main, the extracted reference "
             "interpreter and the extracted Mech are compared on the exhaustive matrix 9 types x 34 store paths x 12 boundary values (one store "
             "per program) and on random programs mixing the paths, on every run.",
     "note": "Trusted: Coq kernel, no axioms (all Print Assumptions closed); extraction (ExtrOcamlBasic, ExtrOcamlString) + OCaml driver "
@@ -54,11 +55,11 @@ META = {
 
 # Mech path -> finding that explains a cell on which Mech differs from Spec
 PATH_FINDING = {
-    "incdec-var": "C04-incdec-unchecked", "incdec-elem1": "C04-incdec-element-unchecked", "return": "C04-return-unchecked",
-    "elemN": "C04-multidim-store-unchecked", "litN": "C04-multidim-store-unchecked",
-    "lit1": "C04-array-literal-unchecked", "global-arr": "C04-array-literal-unchecked",
+    "global-arr": "C04-array-literal-unchecked",
     "elem1": "C04-unsigned-element-read-narrowed", "elem1-compound": "C04-unsigned-element-read-narrowed",
+    "incdec-elem1": "C04-unsigned-element-read-narrowed", "lit1": "C04-unsigned-element-read-narrowed",
     "static": "C04-static-unsigned-negative", "assign-from-elemN": "C04-bare-multidim-value",
+    "return-from-elemN": "C04-bare-multidim-value",
 }
 ONE_D = ("elem1", "elem1-compound", "lit1", "global-arr", "incdec-elem1")
 
